@@ -12,7 +12,7 @@ def main():
         if a == '--only': only = sys.argv[i + 1].split(',')
         if a == '--seeds': seeds = sys.argv[i + 1].split(',')
         if a == '--tier': tier = sys.argv[i + 1]
-    if sh('git', '-C', '/repo', 'status', '--porcelain').stdout.strip():
+    if sh('git', '-C', '/repo', 'status', '--porcelain', '--untracked-files=no').stdout.strip():
         print('refusing: /repo working tree is not clean'); return 2
     meta = json.load(open(os.path.join(d, 'meta.json')))
     r = sh('git', '-C', '/repo', 'apply', os.path.join(d, 'patch.diff'))
@@ -33,7 +33,7 @@ def main():
                 if viol: break      # caught; no need for more seeds
     finally:
         sh('git', '-C', '/repo', 'checkout', '--', '.')
-        left = sh('git', '-C', '/repo', 'status', '--porcelain').stdout.strip()
+        left = sh('git', '-C', '/repo', 'status', '--porcelain', '--untracked-files=no').stdout.strip()
         if left: print('WARNING: /repo not clean after undo:', left)
     meta['caught_by'] = sorted({k.split('/')[0] for k, v in results.items() if v['violations']})
     json.dump(meta, open(os.path.join(d, 'meta.json'), 'w'), indent=1)
